@@ -50,6 +50,17 @@ def run(repo, spec, ground, repo_root):
          "utils.FINEST_PRICES is not {1.01 + k*0.01 | 0 <= k <= 99899}: n=%s first=%s last=%s uniform=%s" % (raw.get("FINEST_N"), raw.get("FINEST_FIRST"), raw.get("FINEST_LAST"), raw.get("FINEST_OK")))
     bs = betdaq_spec()
     fact("BETDAQ_PRICES_is_betdaq_ladder", ground["BETDAQ_PRICES"] == bs, "utils.BETDAQ_PRICES differs from the Betdaq ladder: len %d vs %d" % (len(ground["BETDAQ_PRICES"]), len(bs)))
+    # the band model the prover uses for the constant (const(... bands(...)) in c17_prices.py) enumerates to the real list
+    decl = spec.consts.get(("flumine.utils", "BETDAQ_PRICES"))
+    if decl is not None and getattr(decl, "kind", None) == "bands":
+        enum = []
+        for lo, hi, st in decl.bands:
+            p = F(lo)
+            while p < hi:
+                enum.append(p)
+                p += st
+        enum.append(F(decl.last))
+        fact("band_model_of_BETDAQ_PRICES_enumerates_to_the_real_constant", enum == ground["BETDAQ_PRICES"], "the bands(...) model of utils.BETDAQ_PRICES does not enumerate to the real list")
     return dict(obligations=len(checks), discharged=sum(1 for c in checks if c["ok"]), violations=viol,
                 samples=[dict(obligation="C17/ground:" + c["check"], verdict="holds" if c["ok"] else "fails", solver="native evaluation") for c in checks],
                 assumptions=["ground facts about module constants are evaluated with /venv/bin/python on the current tree (exhaustive, finite)"], ground=checks)
